@@ -3,6 +3,7 @@ package enga
 import (
 	"encoding/json"
 	"fmt"
+	"github.com/gkampitakis/go-snaps/match"
 	"math/rand/v2"
 	"os"
 	"path/filepath"
@@ -23,22 +24,26 @@ func init() { register("C14", checkC14) }
 type jsonCfg struct {
 	Name string
 	Cfg  *snaps.JSONConfig
+	Zero bool // options applied to a zero-value snaps.Config instead of going through WithConfig
 }
 
 func jsonCfgs() []jsonCfg {
 	return []jsonCfg{
-		{"default", nil}, {"default", nil}, {"default", nil},
-		{"w0-sort", &snaps.JSONConfig{Width: 0, Indent: " ", SortKeys: true}},
-		{"w20-tab-sort", &snaps.JSONConfig{Width: 20, Indent: "\t", SortKeys: true}},
-		{"w80-4sp-nosort", &snaps.JSONConfig{Width: 80, Indent: "    ", SortKeys: false}},
-		{"w200-noindent-nosort", &snaps.JSONConfig{Width: 200, Indent: "", SortKeys: false}},
-		{"w20-1sp-nosort", &snaps.JSONConfig{Width: 20, Indent: " ", SortKeys: false}},
+		{"default", nil, false}, {"default", nil, false}, {"default", nil, false},
+		{"w0-sort", &snaps.JSONConfig{Width: 0, Indent: " ", SortKeys: true}, false},
+		{"w20-tab-sort", &snaps.JSONConfig{Width: 20, Indent: "\t", SortKeys: true}, false},
+		{"w80-4sp-nosort", &snaps.JSONConfig{Width: 80, Indent: "    ", SortKeys: false}, false},
+		{"w200-noindent-nosort", &snaps.JSONConfig{Width: 200, Indent: "", SortKeys: false}, false},
+		{"w20-1sp-nosort", &snaps.JSONConfig{Width: 20, Indent: " ", SortKeys: false}, false},
 		// pairs that share width and indent with another entry (or with the defaults) and differ
 		// only in SortKeys: all cases of a worker run in one process, so per-layout state would show
-		{"w0-1sp-nosort", &snaps.JSONConfig{Width: 0, Indent: " ", SortKeys: false}},
-		{"w80-4sp-sort", &snaps.JSONConfig{Width: 80, Indent: "    ", SortKeys: true}},
-		{"w20-tab-nosort", &snaps.JSONConfig{Width: 20, Indent: "\t", SortKeys: false}},
-		{"zero-value-config", &snaps.JSONConfig{}},
+		{"w0-1sp-nosort", &snaps.JSONConfig{Width: 0, Indent: " ", SortKeys: false}, false},
+		{"w80-4sp-sort", &snaps.JSONConfig{Width: 80, Indent: "    ", SortKeys: true}, false},
+		{"w20-tab-nosort", &snaps.JSONConfig{Width: 20, Indent: "\t", SortKeys: false}, false},
+		{"zero-value-config", &snaps.JSONConfig{}, false},
+		// `var c snaps.Config; snaps.Dir(d)(&c)`: Config and the option funcs are exported
+		{"default-on-a-Config-not-built-by-WithConfig", nil, true},
+		{"w80-4sp-sort-on-a-Config-not-built-by-WithConfig", &snaps.JSONConfig{Width: 80, Indent: "    ", SortKeys: true}, true},
 	}
 }
 
@@ -80,9 +85,10 @@ func goFromTree(n *vkit.JNode) (any, bool) {
 }
 
 type c14env struct {
-	c    *vkit.Ctx
-	root string
-	sub  int
+	c        *vkit.Ctx
+	root     string
+	sub      int
+	matchers []match.JSONMatcher // passed along by call (invalid-document cases only)
 }
 
 func (e *c14env) cfg(jc jsonCfg, file string, upd *bool) *snaps.Config {
@@ -93,6 +99,13 @@ func (e *c14env) cfg(jc jsonCfg, file string, upd *bool) *snaps.Config {
 	if upd != nil {
 		opts = append(opts, snaps.Update(*upd))
 	}
+	if jc.Zero {
+		var c snaps.Config
+		for _, o := range opts {
+			o(&c)
+		}
+		return &c
+	}
 	return snaps.WithConfig(opts...)
 }
 
@@ -102,10 +115,10 @@ func (e *c14env) call(api string, jc jsonCfg, file, test string, input any, upd 
 	cfg := e.cfg(jc, file, upd)
 	var path string
 	if api == "sjson" {
-		cfg.MatchStandaloneJSON(t, input)
+		cfg.MatchStandaloneJSON(t, input, e.matchers...)
 		path = filepath.Join(e.root, fmt.Sprintf("%s_1.snap.json", file))
 	} else {
-		cfg.MatchJSON(t, input)
+		cfg.MatchJSON(t, input, e.matchers...)
 		path = filepath.Join(e.root, file+".snap")
 	}
 	sig := t.Take()
@@ -136,7 +149,7 @@ func formArg(form, doc string, gv any) any {
 }
 
 func checkC14(c *vkit.Ctx) {
-	c.P.Rule = "case = (JSON document tree depth<=4 with hostile keys/strings/numbers, entry point MatchJSON|MatchStandaloneJSON, JSON format option set, two presentations: random insignificant whitespace, member shuffle when SortKeys is on, input form string|[]byte|Go value where the document is json.Marshal(value)); recorded through presentation 1, replayed through presentation 2 in a fresh simulated process (must pass, no write), recorded again through presentation 2 in another slot (texts must be equal), stored text decoded with encoding/json and compared with the input tree (ordered when SortKeys is off); plus invalid documents (24 malformation classes, the empty one also as a nil []byte) in four modes over missing/existing slots; non-trivial = document with nesting>=2 or a hostile key/number/string class, or an invalid document; distinct by hash(document, presentations, options, api)"
+	c.P.Rule = "case = (JSON document tree depth<=4 with hostile keys/strings/numbers, entry point MatchJSON|MatchStandaloneJSON, JSON format option set, two presentations: random insignificant whitespace, member shuffle when SortKeys is on, input form string|[]byte|Go value where the document is json.Marshal(value)); recorded through presentation 1, replayed through presentation 2 in a fresh simulated process (must pass, no write), recorded again through presentation 2 in another slot (texts must be equal), stored text decoded with encoding/json and compared with the input tree (ordered when SortKeys is off); plus invalid documents (24 malformation classes, the empty one also as a nil []byte; alone or together with matchers that have nothing to object to) in four modes over missing/existing slots; non-trivial = document with nesting>=2 or a hostile key/number/string class, or an invalid document; distinct by hash(document, presentations, options, api)"
 	c.P.Assumptions = []string{"encoding/json is the oracle for JSON validity and for decoding", "tree comparison treats numbers by exact rational value"}
 	cfgs := jsonCfgs()
 	if os.Getenv("VERIF_RACE_BUILD") == "1" {
@@ -322,7 +335,7 @@ func c14Invalid(c *vkit.Ctx, r *rand.Rand, i int) {
 	e := &c14env{c: c, root: vkit.MkScratch("c14i")}
 	defer os.RemoveAll(e.root)
 	snaps.VerifSetNoColor(true)
-	jc := jsonCfg{"default", nil}
+	jc := jsonCfg{"default", nil, false}
 	if existing {
 		snaps.VerifSetMode(false, "")
 		snaps.VerifResetProcessState()
@@ -340,7 +353,21 @@ func c14Invalid(c *vkit.Ctx, r *rand.Rand, i int) {
 		arg, in["form"] = []byte(nil), "nil-bytes"
 		c.Count("invalid_nil_byte_slice", 1)
 	}
+	// with and without matchers that have nothing to object to
+	mk := pick2(r, "none", "none", "lenient-any-on-missing-path", "any-without-paths", "lenient-type-on-missing-path")
+	e.matchers = nil
+	switch mk {
+	case "lenient-any-on-missing-path":
+		e.matchers = []match.JSONMatcher{match.Any("zz.missing").ErrOnMissingPath(false)}
+	case "any-without-paths":
+		e.matchers = []match.JSONMatcher{match.Any()}
+	case "lenient-type-on-missing-path":
+		e.matchers = []match.JSONMatcher{match.Type[string]("zz.missing").ErrOnMissingPath(false)}
+	}
+	in["matchers"] = mk
+	c.Count("invalid_with_matchers:"+mk, 1)
 	out, sig, _, _ := e.call(api, jc, "docs", "TestJ", arg, m.upd)
+	e.matchers = nil
 	c.Count("invalid_calls", 1)
 	c.Count("invalid:"+class, 1)
 	if out != vkit.Failed {
